@@ -182,3 +182,9 @@ def main():
 
 if __name__ == "__main__":
     main()
+
+# digests of the tables generated from the unchanged tree (harness/common.py: generated_changed)
+import sys as _sys
+_sys.path.insert(0, os.path.join(os.path.dirname(os.path.dirname(os.path.abspath(__file__))), "harness"))
+import common as _common  # noqa: E402
+json.dump(_common.generated_digests(), open(os.path.join(os.path.dirname(os.path.dirname(os.path.abspath(__file__))), "harness", "generated_baseline.json"), "w"), indent=1)
